@@ -165,6 +165,8 @@ def run(ctx, R, tier):
     from .c07 import write_unconditional
     write_unconditional(F, R, rule='B.C03.cmd', floor=8, fn_filter=lambda p: ('sound::static_sound::handle' in p or 'sound::streaming::handle' in p)
                         and p.split('::')[-1] in ('pause', 'resume', 'resume_at', 'stop'))
+    lifecycle_readers(F, R)
+    fade_continuity(F, R)
     # a fade-driven step completes when its tween completes: the fade and start-time bookkeeping runs on every path of process
     from .c06 import ungated
     ungated(F, R, rule='B.C03.ungated')
@@ -634,3 +636,59 @@ def describe_eq_rhs(b):
         if p.endswith('::eq') and len(t['args']) > 1:
             return describe(b, t['args'][1])
     return '?'
+
+
+def lifecycle_readers(F, R):
+    """Every callback polls all three life-cycle readers of a sound, in the order pause, resume, stop, on every path: a
+    handler that returns after one of them leaves the others' commands unread until the next callback, where they are
+    applied late and override the later command (a stale pause after a stop: the sound never reaches Stopped)."""
+    from .c09 import reader_sequence
+    from ..rules import must_pass
+    n = 0
+    for tag, owner in (('static', 'sound::static_sound::sound::StaticSound'), ('streaming', 'sound::streaming::sound::StreamingSound')):
+        ob = F.body('<%s as sound::Sound>::on_start_processing' % owner)
+        rd = None
+        if ob is not None:
+            for bb, t in ob.calls():
+                cb = F.body(callee_path(t) or '')
+                if cb is not None and cb.krate == 'kira' and any((callee_path(tt) or '') == 'command::CommandReader::<T>::read' for _, tt in cb.calls()):
+                    rd = cb
+            if rd is None and any((callee_path(tt) or '') == 'command::CommandReader::<T>::read' for _, tt in ob.calls()):
+                rd = ob
+        if not R.check(rd is not None, 'B.C03.readers', 'anchor:' + tag, 'the function in which the %s sound polls its command readers was not found' % tag):
+            continue
+        n += 1
+        q = [x for x in reader_sequence(rd) if x in ('pause', 'resume', 'stop')]
+        from .c07 import origin_pl, last_field
+        every = True
+        for bb, t in rd.calls():
+            if (callee_path(t) or '') == 'command::CommandReader::<T>::read':
+                lf = last_field(origin_pl(rd, t['args'][0]) or {})
+                if lf and lf[0] in ('pause', 'resume', 'stop') and not must_pass(rd, [0], rd.return_blocks(), [bb]):
+                    every = False
+        R.check(q == ['pause', 'resume', 'stop'] and every, 'B.C03.readers', tag,
+                'the %s sound polls its life-cycle readers as %s%s (required: pause, resume, stop, each on every path)'
+                % (tag, q, '' if every else ', and a path to return skips one of them'), detail={'order': q}, where=rd.file)
+    R.floor('B.C03.readers', n, 2)
+
+
+def fade_continuity(F, R, rule='B.SM.fade-continuity'):
+    """The gain moves monotonically / a new tween begins from the current, possibly mid-tween, value: the fade parameter
+    of a PlaybackStateManager is built once, in a constructor, and afterwards only ever *told a new target*
+    (`volume_fade.set(..)`), which starts from wherever the gain is.  Replacing the parameter in pause / resume / stop
+    restarts the fade from a fixed value: a resume during a pause fade-out (or a redundant resume) makes the level jump."""
+    PSM = 'playback_state_manager::PlaybackStateManager'
+    n = 0
+    bad = []
+    for b in F.bodies:
+        if b.krate != 'kira' or not b.path.startswith(PSM + '::'):
+            continue
+        n += 1
+        ctor = any(s2['k'] == 'assign' and s2['rv']['k'] == 'agg' and s2['rv'].get('adt') == PSM for _, _, s2 in b.stmts())
+        for bb, si, s2 in b.stmts():
+            if s2['k'] == 'assign' and s2['lhs']['p'] and pretty_place(b, s2['lhs']) == '(*self).volume_fade' and not ctor:
+                bad.append('%s assigns self.volume_fade' % b.path)
+    sets = [b.path for b in F.bodies if b.krate == 'kira' and b.path.startswith(PSM + '::')
+            for _, t in b.calls() if (callee_path(t) or '') == 'parameter::Parameter::<T>::set']
+    R.check(not bad and len(sets) >= 3, rule, 'volume_fade', '; '.join(bad) or 'pause / resume / stop do not retarget the fade with Parameter::set (found %d)' % len(sets),
+            detail={'methods': n, 'set_calls': len(sets)})
